@@ -105,12 +105,7 @@ partial def tyOf (j : Json) : Ty :=
   | "enum" =>
     let members := (arr! (fld j "members")).map fun m => match arr! m with
       | [n, v] => (str! n, toM v) | _ => ("", .null)
-    let lastPrim : Option Prim := match (members.getLast?).map (·.2) with
-      | some (Utv.JsonSchema.Json.str _) => some .str
-      | some (Utv.JsonSchema.Json.num _) => some (if (optStrJ (fld j "valueKind")) == some "float" then .float else .int)
-      | some (Utv.JsonSchema.Json.bool _) => some .bool
-      | _ => none
-    .enum ⟨(optStrJ (fld j "base")).bind primOf, lastPrim, members⟩
+    .enum ⟨(optStrJ (fld j "base")).bind primOf, (arr! (fld j "kinds")).map fun k => (primOf (str! k)).getD .str, members⟩
   | "logic" =>
     let op := match str! (fld j "op") with
       | "allOf" => Op.allOf | "oneOf" => Op.oneOf | _ => Op.anyOf
@@ -247,8 +242,11 @@ def handleCase (j : Json) (regs : Reg × Reg) : Json × (Reg × Reg) :=
   let known (p s : String) : Bool := (find p s).isSome
   let fuel := 64
   let ty := tyOf (fld j "ty")
-  if !wfTy ty then (Json.mkObj [("unmodelled", Json.str "declaration outside the modelled fragment (wfTy)")], regs) else
   let gm := optChar (fld j "genMode")
+  if !wfTy ty then
+    -- outside the fragment of the theorems: nothing is compared, but the registries keep in step with the library
+    let regs0 : Reg × Reg := if bool! (fld j "defs") then ((genD ⟨false, gm⟩ regs.1 ty).2, (genD ⟨true, gm⟩ regs.2 ty).2) else regs
+    (Json.mkObj [("unmodelled", Json.str "declaration outside the modelled fragment (wfTy)")], regs0) else
   let sIn := generate ⟨false, gm⟩ ty
   let sOut := generate ⟨true, gm⟩ ty
   let C : Ctx := ⟨R.search, fun _ _ => false⟩
